@@ -47,12 +47,28 @@ def run(ctx):
     # both harnesses build and run concurrently (separate packages, separate output files)
     from concurrent.futures import ThreadPoolExecutor
 
+    import os
+    import threading
+    lock, orig_overlay = threading.Lock(), vf.make_overlay
+
+    def locked_overlay(c, pkg_dir, files, **kw):
+        # vf.make_overlay numbers its file by the size of ctx.tmp: serialise and give each package its own name
+        with lock:
+            op = orig_overlay(c, pkg_dir, files, **kw)
+            new = op[:-5] + "-" + pkg_dir.replace("/", "_") + ".json"
+            os.rename(op, new)
+            return new
+
     def one(h):
         n = ctx.n(h["n_quick"], h["n_thorough"])
         return vf.go_harness(ctx, h["pkg_dir"], h["run"], h["files"], n, timeout=900 if ctx.tier == "quick" else 3600,
                              out_name="out-%s.jsonl" % h["name"])
-    with ThreadPoolExecutor(max_workers=2) as ex:
-        results = list(ex.map(one, HARNESSES))
+    vf.make_overlay = locked_overlay
+    try:
+        with ThreadPoolExecutor(max_workers=2) as ex:
+            results = list(ex.map(one, HARNESSES))
+    finally:
+        vf.make_overlay = orig_overlay
     for h, hr in zip(HARNESSES, results):
         recs = hr["records"]
         cases = [r for r in recs if r.get("kind") == "case"]
